@@ -108,6 +108,26 @@ class StructModel:
         return (v,)
 
 
+class StructObjModel:
+    """stand-in for a precompiled struct.Struct instance held in a module global"""
+
+    def __init__(self, fmt):
+        self.format = fmt
+        self.size = _struct.calcsize(fmt)
+
+    def pack(self, *vals):
+        return StructModel.pack(self.format, *vals)
+
+    def unpack(self, data):
+        return StructModel.unpack(self.format, data)
+
+    def unpack_from(self, data, offset=0):
+        return StructModel.unpack(self.format, SymBytes.of(data)[offset:offset + self.size] if not isinstance(data, (bytes, bytearray)) else data[offset:offset + self.size])
+
+    def __repr__(self):
+        return f"<StructObjModel {self.format}>"
+
+
 # ======================================================================================
 # streams
 class ProtocolMonitor:
